@@ -186,3 +186,17 @@ package airgapped
 //@ orderaccept dkg.DKG).ProcessResponses#0 responses of different peers are processed independently by kyber
 //@ orderaccept dkg.DKG).Equals#1 comparison helper used by tests only
 //@ orderaccept airgapped.prompt).showFinishedDKGCommand#0 console listing
+
+// decrypting keeps no state: nothing but byte buffers is written (in particular no derived key is remembered, so a
+// password is needed for every load)
+//@ func decrypt
+//@   safety C04
+//@   nosafety
+//@   modifies []byte
+//@   ensures[C04.key.nocache] true
+//@ func encrypt behavior frame
+//@   nosafety
+//@   requires true
+//@   modifies []byte
+//@   modifies $ciphers
+//@   ensures[C04.key.nocache] true
